@@ -31,6 +31,8 @@ def run(repo, rep):
     rule_h_ranges(repo, rep)
     rep.clause("C04-n", "the queue depths the wait model is sized with are the hardware's: two kernels in flight on every accelerator, two DMAs on Ethos-U65 and one on Ethos-U55 (single writer, literals)")
     rule_queue_depths(repo, rep)
+    rep.clause("C04-o", "the SHRAM banks a kernel is modelled to own exclude the LUT banks only for a LUT-using kernel on a part without reserved banks (available_shram_banks interpreted on a 12-point grid)")
+    rule_available_banks(repo, rep)
     rule_kernel_forwarding(repo, rep)
     rep.clause("C04-k", "block dependency: the operator kinds that consume the whole IFM depth agree between the stripe transform and get_ifm_ofm_block_depth (Conv2D and REDUCE_SUM)")
     rule_depth_consuming_kinds(repo, rep)
@@ -987,3 +989,28 @@ def rule_queue_depths(repo, rep):
                         if isinstance(tg, ast.Attribute) and tg.attr in want:
                             others.append(f"{m.rel}:{q}")
     rep.check(not others, "C04-n", site, "no other writer of the queue depths", f"also written in {others}")
+
+
+def rule_available_banks(repo, rep):
+    """(o) the SHRAM extent a kernel is modelled to write (the conflict model asks available_shram_banks) ends below the two LUT banks only if
+    the kernel uses a LUT on a part without reserved banks; a kernel without a LUT on such a part owns all banks - its accumulators reach
+    the last bank, and a following LUT DMA must wait for it. Interpreted for total banks 16 / 24 / 48, reserved 0 / 2, LUT used or not."""
+    from ..absint import AObj, Interp
+
+    am = repo.mod("architecture_features")
+    it = Interp(repo, am)
+    site = "ethosu/vela/architecture_features.py:ArchitectureFeatures.available_shram_banks"
+    n = 0
+    for total in (16, 24, 48):
+        for reserved in (0, 2):
+            for lut in (False, True):
+                self_ = AObj("arch", {"shram_total_banks": total, "shram_reserved_unused_banks": reserved}, cls="ArchitectureFeatures")
+                ps = [p for p in it.run("ArchitectureFeatures.available_shram_banks", lambda s_=self_, l_=lut: ([s_, l_], {})) if p.kind == "return"]
+                if len(ps) != 1:
+                    raise AnalysisError(f"available_shram_banks: {len(ps)} paths for concrete arguments")
+                want = total - (2 if lut and reserved == 0 else 0)
+                n += 1
+                rep.check(ps[0].value == want, "C04-o", site, f"total {total}, reserved {reserved}, LUT {lut}: {want} banks", f"returns {ps[0].value}: a kernel without a LUT on a 16-bank part is modelled as leaving the last two banks alone - "
+                          "the LUT DMA that follows gets no KERNEL_WAIT although the kernel's accumulators occupy them")
+    if n < 12:
+        raise AnalysisError("available_shram_banks: grid not evaluated")
